@@ -224,6 +224,34 @@ func c19Schemas() []func() *c19Schema {
 			return s
 		},
 		func() *c19Schema {
+			s := &c19Schema{name: "String.Min(5).OneOf(list) and String.Min(5).Catch: failing runs whose issues are collected / swallowed"}
+			list := []string{"alpha-beta", "gamma-delta"}
+			prm := map[string]any{"custom": "param"}
+			own(&s.owned, "OneOf list", list)
+			own(&s.owned, "Params option map", prm)
+			sc := z.String().Min(5).OneOf(list).TestFunc(func(v any, ctx z.Ctx) bool { return false }, z.Params(prm), z.IssueCode("custom"))
+			caught := z.String().Min(5).OneOf(list).Catch("alpha-beta")
+			s.events = []c19Event{
+				{"Parse(ab) fails three tests", func() (string, any) { var d string; l := sc.Parse("ab", &d); return c19Obs(l, d), nil }},
+				{"Parse(ab) fails, issues collected", func() (string, any) {
+					var d string
+					l := sc.Parse("ab", &d)
+					o := c19Obs(l, d)
+					z.Issues.CollectList(l)
+					return o, nil
+				}},
+				{"Validate(ab) fails, issues sanitized and collected", func() (string, any) {
+					d := "ab"
+					l := sc.Validate(&d)
+					o := c19Obs(l, d)
+					z.Issues.SanitizeListAndCollect(l)
+					return o, nil
+				}},
+				{"catching twin swallows the same failures", func() (string, any) { var d string; l := caught.Parse("ab", &d); return c19Obs(l, d), nil }},
+			}
+			return s
+		},
+		func() *c19Schema {
 			s := &c19Schema{name: "Custom[[]int] whose function mutates its argument"}
 			sc := z.CustomFunc(func(p *[]int, ctx z.Ctx) bool {
 				for i := range *p {
@@ -377,7 +405,7 @@ func init() {
 		ID:    "C19",
 		Rule:  "one execution = one sequence of ≤depth calls (Parse/Validate, absent/present inputs given as maps, []any, typed slices, structs, pointers) on ONE schema object whose PostTransforms overwrite and append to their destination; after every call: deep snapshot (incl. hidden capacity) of every value handed to a builder (slice/nested defaults, OneOf lists, Contains params) and of every input is unchanged, the destination shares no backing array with them, and a repeated call observes exactly what its first occurrence observed; every sequence is non-trivial; distinct = distinct (schema, call sequence)",
 		Floor: 20,
-		Bound: func(tier string) string { return fmt.Sprintf("all call sequences of length ≤%d over 8 schema families, every field visit order", c19Depth(tier)) },
+		Bound: func(tier string) string { return fmt.Sprintf("all call sequences of length ≤%d over 9 schema families, every field visit order", c19Depth(tier)) },
 		Assumptions: []string{"mutating callbacks only write through the pointer they are given"},
 		Items: func(tier string) []Item {
 			var items []Item
